@@ -25,10 +25,17 @@ func ScanTiffHeader(r io.Reader, it imagetype.ImageType) (header meta.ExifHeader
 	}
 	discarded := 0
 
+	// A caller's bufio.Reader may be smaller than the look-ahead (16 bytes is
+	// the smallest there is): the 8 header bytes fit in any case.
+	n := TiffHeaderLength
+	if br.Size() < n {
+		n = br.Size()
+	}
+
 	var buf []byte
 
 	for {
-		if buf, err = br.Peek(TiffHeaderLength); err != nil {
+		if buf, err = br.Peek(n); err != nil {
 			err = meta.ErrNoExif
 			return
 		}
